@@ -234,6 +234,33 @@ func C08(c *run.Check) {
 	if c.TimeUp() {
 		completedLen = maxLen - 1
 	}
+	// quick tier: length 5 as well, over a 12-token sub-alphabet (both defects the
+	// full length-5 enumeration of the thorough tier found live here)
+	if c.Quick() && maxLen < 5 {
+		sub := []string{"/", "1", ".", "not(", "'s'", ")", "[", "]", "a", "*", "$v", "("}
+		ns := len(sub)
+		tot5 := ns * ns * ns * ns * ns
+		nch := (tot5 + chunk - 1) / chunk
+		run.ParallelW(nch, func(w, ci int) {
+			if (!triage && c.Violations() > 0) || c.TimeUp() {
+				return
+			}
+			b := bind(w)
+			for idx := ci * chunk; idx < min((ci+1)*chunk, tot5); idx++ {
+				k := idx
+				toks := make([]string, 5)
+				for j := 4; j >= 0; j-- {
+					toks[j] = sub[k%ns]
+					k /= ns
+				}
+				for _, sep := range []string{"", " "} {
+					c.Evaluations.Add(1)
+					c08Judge(c, b, 0, strings.Join(toks, sep), nil, "tokens", quirkAll, quirks)
+				}
+			}
+		})
+		c.Set("length_5_token_strings_over_12_token_subalphabet", 2*tot5)
+	}
 	// ---- accept side: generated ASTs in five renderings on three documents ----
 	asts := c08ASTs(c.Quick())
 	rends := []refxp.RenderOpt{{}, {WS: 1}, {WS: 2}, {FullParens: true}, {Unabbrev: true}, {FullParens: true, WS: 1, Unabbrev: true}}
@@ -282,7 +309,7 @@ func C08(c *run.Check) {
 	c.Set("token_alphabet", strings.Join(c08Tokens, " "))
 	c.Set("token_string_max_len_completed", completedLen)
 	c.Set("asts", len(asts))
-	c.Rule = fmt.Sprintf("(reject+accept) ALL token strings of length <=%d over a %d-token alphabet, joined without and with spaces: the reference recogniser (recursive-descent XPath 1.0 + documented extensions) decides expression vs. non-expression; BuildExpr+Exec must error on every non-expression (and on XPath type errors) and must return the reference value on every expression; (accept) %d generated ASTs - every triple of binary operators in both association shapes, unary minus and union against every operator, '*' in every position, names spelling operators/axes/node types, numeral and literal forms, nested predicates/paths/calls - rendered 6 ways (minimal/full parentheses x 3 whitespace regimes x abbreviated/expanded) on 3 documents, compared with the reference evaluation of the GENERATING tree; non-trivial = distinct accepted string with agreeing value", maxLen, nt, len(asts))
+	c.Rule = fmt.Sprintf("(reject+accept) ALL token strings of length <=%d over a %d-token alphabet, joined without and with spaces (quick tier: additionally all strings of length 5 over the 12-token sub-alphabet / 1 . not( 's' ) [ ] a * $v ( ): the reference recogniser (recursive-descent XPath 1.0 + documented extensions) decides expression vs. non-expression; BuildExpr+Exec must error on every non-expression (and on XPath type errors) and must return the reference value on every expression; (accept) %d generated ASTs - every triple of binary operators in both association shapes, unary minus and union against every operator, '*' in every position, names spelling operators/axes/node types, numeral and literal forms, nested predicates/paths/calls - rendered 6 ways (minimal/full parentheses x 3 whitespace regimes x abbreviated/expanded) on 3 documents, compared with the reference evaluation of the GENERATING tree; non-trivial = distinct accepted string with agreeing value", maxLen, nt, len(asts))
 	c.Assume("reference recogniser refxp.Parse (round-trip validated against the renderer in the self-test)")
 }
 
